@@ -510,3 +510,32 @@ def point_reaches(body, a, b):
         if b.bb in body.reachable(nxt):
             return True
     return False
+
+
+def check_getters(R, prefixes, instance="accessor-fidelity"):
+    """Accessors of the reviewed tree that merely hand out one field path (engine/pinned_fns.json `getters`, frozen by bin/gen-pinned)
+    still hand out that field.  The rules read the code *through* these accessors (`seg.is_delivered()`, `sizes.mss()`), so an
+    accessor that starts returning a sibling field of the same type silently changes what every such rule - and the library - means."""
+    import json as _json
+    import os as _os
+    p = _os.path.join(_os.path.dirname(_os.path.dirname(_os.path.abspath(__file__))), "engine", "pinned_fns.json")
+    try:
+        table = _json.load(open(p)).get("getters", {})
+    except (OSError, ValueError):
+        table = {}
+    n = 0
+    for name, fields in sorted(table.items()):
+        if not name.startswith(tuple(prefixes)):
+            continue
+        b = R.facts.body(name)
+        if b is None:
+            continue  # the accessor is gone: rules anchored in it fail closed on their own
+        n += 1
+        t = trace(b, Place({"l": 0, "p": []}))
+        if t.kind == "param" and t.root[1] == 1 and t.fields == fields:
+            R.ok(instance, name.split("::", 1)[1], "-> " + ".".join(f.split(".")[1] for f in fields))
+        else:
+            R.fail([name, "returns", ".".join(t.fields) if t.fields else t.describe()[:40], "reviewed=" + ".".join(fields)],
+                   "%s no longer returns %s (now: %s): every guard and computation that reads the state through this accessor now reads something else" % (name.split("::", 1)[1], ".".join(f.split(".")[1] for f in fields), ".".join(t.fields) or t.describe()[:40]),
+                   where=b.where(), instance=instance)
+    return n
